@@ -204,6 +204,8 @@ def run(ctx):
     broken = [o for o in ctx.obligations if not o.ok and o.kind in ("theorem", "translator", "audit")]
     known = common.load_known(ctx.prop)
     fresh = lambda: [v for v in ctx.violations if common.match_known(known, v) is None]
+    if any(o.name.startswith("C19_map_") for o in broken):
+        map_law_search(ctx)
     if (broken or not ran) and not fresh():
         # search: widen to the thorough generator; the oracle comparison yields the failing input
         if ran and ctx.tier != "thorough":
@@ -215,6 +217,61 @@ def run(ctx):
             for nm in names[:5]:
                 ctx.violation("obligation:" + nm, "obligation no longer checks: " + nm, obligation=nm, no_input=True,
                               extra={"detail": [o.detail for o in broken if o.name == nm]})
+
+
+def map_law_search(ctx):
+    """A C19_map_* theorem no longer checks: search the REGENERATED model (coq/gen/MapGen.v, i.e. what
+    std/map.glu says now) for a concrete failing input of the append / map laws (Lib/MapSearch.v:
+    all pairs of maps built from <= 3 insertions over keys 1..3).  The witness is a Gluon program."""
+    import re
+    with common.Lock("coq"):
+        rc, out = common.sh(["timeout", "600", os.path.join(common.COQ, "mk.sh"), "-j8", "theories/Lib/MapSearch.vo"])
+    if rc != 0:
+        return
+    src = os.path.join(ctx.run_dir, "mapsearch.v")
+    open(src, "w").write("From Coq Require Import ZArith List.\nImport ListNotations.\nOpen Scope Z_scope.\nFrom GV Require Import Lib.MapSearch.\nEval vm_compute in append_cex.\nEval vm_compute in fmap_cex.\n")
+    rc, out = common.sh(["timeout", "300", "coqc", "-noglob", "-Q", os.path.join(common.COQ, "theories"), "GV",
+                         "-Q", os.path.join(common.COQ, "gen"), "GVgen", src], cwd=ctx.run_dir)
+    if rc != 0:
+        return
+    parts = re.split(r"^\s*=\s", out, flags=re.M)[1:]
+    if len(parts) != 2:
+        return
+    def nums(t):
+        t = t.split(": option")[0]
+        return [int(x) for x in re.findall(r"-?\d+", t.replace("%Z", ""))] if "Some" in t else None
+    def take_list(ns, i):
+        n = ns[i]; i += 1
+        xs = [(ns[i + 2 * j], ns[i + 2 * j + 1]) for j in range(n)]
+        return xs, i + 2 * n
+    def opt(tag, v):
+        return "Some %d" % v if tag == 1 else "None"
+    def glu_map(xs):
+        e = "map.empty"
+        for (k, v) in xs:
+            e = "(map.insert %d %d %s)" % (k, v, e)
+        return e
+    a = nums(parts[0])
+    if a:
+        l, i = take_list(a, 0)
+        r, i = take_list(a, i)
+        x, gt, gv, et, ev = a[i:i + 5]
+        prog = "let map = import! std.map\nmap.find %d (map.append %s %s)" % (x, glu_map(l), glu_map(r))
+        ctx.violation("map:append-is-not-the-right-biased-union",
+                      "std.map append: find %d (append l r) = %s, the right-biased union gives %s (l = inserts %s, r = inserts %s)" % (x, opt(gt, gv), opt(et, ev), l, r),
+                      case={"gluon_program": prog, "l_inserts": l, "r_inserts": r, "key": x},
+                      expected=opt(et, ev), observed=opt(gt, gv), obligation="C19_map_find_append",
+                      extra={"found_by": "Lib/MapSearch.v append_cex evaluated on the regenerated MapGen.v (std/map.glu as it is now)"})
+    b = nums(parts[1])
+    if b:
+        l, i = take_list(b, 0)
+        x, gt, gv, et, ev = b[i:i + 5]
+        prog = "let map = import! std.map\nlet { map = fmap } = map.functor\nmap.find %d (fmap (\\v -> v + 100) %s)" % (x, glu_map(l))
+        ctx.violation("map:fmap-changes-more-than-values",
+                      "std.map map: find %d (map (+100) m) = %s, expected %s (m = inserts %s)" % (x, opt(gt, gv), opt(et, ev), l),
+                      case={"gluon_program": prog, "inserts": l, "key": x},
+                      expected=opt(et, ev), observed=opt(gt, gv), obligation="C19_map_find_fmap",
+                      extra={"found_by": "Lib/MapSearch.v fmap_cex evaluated on the regenerated MapGen.v"})
 
 
 def replay(ctx, path):
